@@ -572,8 +572,10 @@ def stop_products_tree(rng, res, no=None):
     try:
         os.chdir(root)
         open("m0", "wb").write(b"material\n")
+        rec_env = bool(no is not None and (no // 2) % 2)
         with quiet():
-            rl.in_toto_record_start("st", ["m0"], signer=k.signer, use_dsse=dsse)
+            rl.in_toto_record_start("st", ["m0"], signer=k.signer, use_dsse=dsse, **({"record_environment": True} if rec_env else {}))
+        start_dir = os.getcwd()
         T.materialise({n_: v for n_, v in tree.items() if n_ != "m0"}, root)
         # the material itself may be replaced between start and stop - also by a file with an OLD time stamp (unpacked
         # from an archive, copied with its times, clamped for reproducibility) or of the same size: the products are what
@@ -598,6 +600,8 @@ def stop_products_tree(rng, res, no=None):
             got = {"ok": sorted([a, b["sha256"]] for a, b in pl.products.items())}
             if sorted(pl.materials.items()) != [("m0", {"sha256": sha_of("material\n")})]:
                 got = {"err": "materials of the final link are not those captured at start: %r" % (sorted(pl.materials.items()),)}
+            if pl.environment != ({"workdir": start_dir.replace("\\", "/")} if rec_env else {}):
+                got = {"err": "environment of the final link is not what start recorded (asked for: %r): %r" % (rec_env, pl.environment)}
         except Exception as e:  # pylint: disable=broad-except
             got = {"err": type(e).__name__}
     finally:
